@@ -167,7 +167,7 @@ def register(PROPS):
         "gens": [{"id": "C09", "quick": 40000, "thorough": 800000, "thorough_seeds": 8}, _GREP],
         "nontrivial": nontrivial_replay,
         "rule": "whole histories (Put / Replay / GC / clock advance) on a fresh ValidReplayer with an injected clock: TTL in "
-                "{1,2,5,10,100,1000,2^40} ns (rarely 0 / -5: constructor error), GCInterval default or in {0,-1,1,ttl/2,ttl,"
+                "{1,2,5,10,100,1000,2^40, 250 years, the largest Duration} ns (rarely 0 / -5: constructor error), GCInterval default or in {0,-1,1,ttl/2,ttl,"
                 "2ttl,10ttl}, both ID modes; bursts of 1-40 Puts without clock advance (buffer 4->8->16->32->64), clock "
                 "advances 0, 1, ttl/3, ttl/2, ttl-1, ttl, ttl+1, 2ttl, 3ttl, 100ttl and advances aimed to expire exactly the k "
                 "oldest entries, explicit GC anywhere (fresh replayer, twice in a row), 30% scripted wrap scenarios (fill to "
